@@ -269,7 +269,7 @@ void Polygon::fillet(const Array<double> radii, double tolerance) {
     uint64_t k = last + 1;
     while (k != last) {
         k = j == old_size - 1 ? 0 : j + 1;
-        while (old_pts[k] == old_pts[j]) k += 1;
+        while (old_pts[k] == old_pts[j]) k = k == old_size - 1 ? 0 : k + 1;
 
         const Vec2 p2 = old_pts[k];
         Vec2 v1 = p2 - p1;
